@@ -201,7 +201,10 @@ class RecSim(Sim):
         self._fail_marked = False
         try: getattr(self.rpc, name)(*args)
         except RPCError: return 'fault'
-        except (RuntimeError, ValueError): self.last_err = 'NoMaster'
+        except Exception as e:
+            # an exception other than RPCError leaves an XML-RPC method (C16 / C17)
+            self.last_err = 'NoMaster' if isinstance(e, (RuntimeError, ValueError)) else 'Other'
+            self.net.rpc_exceptions.append((self.k - 1, name, type(e).__name__, traceback.format_exc()))
         return 'ok'
 
 
@@ -336,6 +339,10 @@ def run_schedule(seed, rec, nmax=4, max_ticks=40, faults_max=10, quiet_ticks=0, 
             s = rnd.choice(sims)
             if kind == 'inject' and s.identifier not in net.down and s.history:
                 typ, data = rnd.choice(s.history[-40:])
+                if procs and rnd.random() < 0.5:
+                    # stale process data: an old ALL_INFO snapshot or process event, from anywhere in the history
+                    old_ = [m for m in s.history if '"group": "app"' in m[1]]
+                    if old_: typ, data = rnd.choice(old_)
                 how = rnd.choice(['dup', 'dup', 'forge-ip', 'forge-id'])
                 msg = json.loads(data); forged = False
                 ident_msg = typ == SUPVISORS_NOTIFICATION and NotificationHeaders(msg[1][0]) in (NotificationHeaders.IDENTIFICATION, NotificationHeaders.DISCOVERY)
@@ -514,6 +521,9 @@ def cluster_check(chk, prefixes, nontrivial, rule, quick_cases=40, thorough_case
                 chk.reject(f'{chk.prop}:hang', f'an implementation operation did not return: {e}', {'schedule_seed': sd, 'kwargs': sched_kwargs})
                 rec.lines = rec.lines[:a]; rec.obs = rec.obs[:a]
                 continue
+            if net.rpc_exceptions and chk.prop in ('C16', 'C17'):
+                k_, name_, exc_, tb_ = net.rpc_exceptions[0]
+                extra = list(extra) + [(f'{chk.prop}:rpc-exception:{name_}:{exc_}', f'{exc_} left the XML-RPC {name_} of instance {k_}: {tb_.strip().splitlines()[-1][:120]}')]
             if net.sent_to_isolated and chk.prop == 'C13':
                 a_, b_, typ = net.sent_to_isolated[0]
                 extra = list(extra) + [('C13:sent-to-isolated', f'{len(net.sent_to_isolated)} message(s) sent by {a_} to {b_} which it holds ISOLATED (first: {typ})')]
